@@ -138,7 +138,7 @@ func c06Gen(r *hx.R, tier string, out *hx.Out) []string {
 		proto := c06Protos[r.Intn(len(c06Protos))]
 		b := c06Mutate(r, c06Valid(r, proto), limit)
 		if proto == "http" && r.Intn(3) == 0 { // Content-Length far above the limit, no body
-			b = []byte(fmt.Sprintf("POST /c06_echo/ping HTTP/1.1\r\nContent-Type: application/json\r\nContent-Length: %d\r\n\r\n", r.Pick(1<<24, 1<<27, limit+1+r.Intn(1<<20))))
+			b = []byte(fmt.Sprintf("POST /c06_echo/ping HTTP/1.1\r\nContent-Type: application/json\r\nContent-Length: %d\r\n\r\n", r.Pick(1<<24, 1<<27, limit+1+r.Intn(1<<20), 1<<32, 1<<32+100+r.Intn(limit+1), 1<<33+5)))
 		}
 		ls = append(ls, fmt.Sprintf("xproto proto=%s limit=%d chunk=%d cseed=%d bytes=%s", proto, limit, r.Intn(4), r.Intn(1000), hx.Hex(b)))
 	}
